@@ -14,7 +14,8 @@ RULE = ("n_wfs 1..4; per WFS a 0/1 mask on an n x n grid (n 2..7) from a drawn s
         "different; 1-3 layers with altitude 0..20 km below every LGS, r0 in [0.05,2], L0 in [2,200]. Oracle: independent "
         "finite-difference slope covariance (float64, own von Karman D). Non-trivial = >=2 WFS, or an asymmetric mask, "
         "or an off-axis GS with a layer above ground, or an NGS/LGS mix. Distinct = canonical JSON."
-        " Also: sensors of different order on one telescope (1x1 .. 7x7 masks mixed).")
+        " Also: sensors of different order on one telescope (1x1 .. 7x7 masks mixed)."
+        " After a history the builder's matrix is compared with its copy after make_tomographic_reconstructor().")
 ASSUMPTIONS = ["axis 'x' = first index of the pupil mask, (X,Y) guide-star offsets act on (first, second) mask axis; sub-aperture centre (i+1/2) d - D/2",
                "the code's rounded constant 0.17253 (vs 0.172629) is accepted (C08 checks the rounding band)",
                "matrix stored in float32: entry tolerance 16*eps32 of the matrix scale; PSD: lambda_min >= -1e-5 lambda_max"]
